@@ -195,6 +195,10 @@ func IDString(t *rapid.T, label string, allowEmpty bool) string {
 	case 3:
 		// IDs made of the characters lists of IDs are written with.
 		return rapid.StringMatching(`[ab, ]{1,4}`).Draw(t, label+"-sep")
+	case 4:
+		// IDs that read like numbers in some spelling, or like the
+		// percent-encoding of another text: all of them just strings.
+		return rapid.SampledFrom([]string{"007", "+5", "-0", "10", "9", "1e3", "0x1f", "100%25", "a%20b", "%2F", "%C3%A9", "50%", "1.0"}).Draw(t, label+"-numlike")
 	default:
 		return rapid.StringMatching(`[a-c1-3]{1,3}`).Draw(t, label)
 	}
